@@ -323,6 +323,7 @@ def contracts():
                 assert(merged_roots(cfg0.global, add0.global, config.global)); //@C14.later_global_option_wins,C18.root_certificates_of_an_included_global_section
                 assert(merged_env(cfg0.global, add0.global, config.global)); //@C14.later_global_option_wins,C10.environment_of_an_included_global_section
                 assert(merged_renewal(cfg0.global, add0.global, config.global)); //@C14.later_global_option_wins,C06.renewal_settings_of_an_included_global_section
+                assert(merged_directories(cfg0.global, add0.global, config.global)); //@C14.later_global_option_wins,C11.accounts_directory_of_an_included_global_section,C02.storage_directories_of_an_included_global_section,C03.storage_directories_of_an_included_global_section
                 assert(global_merged(cfg0.global, add0.global, config.global)); //@C14.later_global_option_wins
             }"""),
             ],
@@ -359,6 +360,8 @@ pub proof fn documented_defaults()
     ensures
         crate::DEFAULT_HOOK_ALLOW_FAILURE == false, //@C10.a_hook_may_fail_only_when_allow_failure_says_so_by_default_it_may_not,C05.a_hook_may_fail_only_when_allow_failure_says_so_by_default_it_may_not,C07.a_hook_may_fail_only_when_allow_failure_says_so_by_default_it_may_not
         crate::DEFAULT_CERT_FILE_MODE == 0o644 && crate::DEFAULT_PK_FILE_MODE == 0o600, //@C13.default_modes_are_0644_and_0600
+        // acmed.toml(5): certificates and keys under the data directory, accounts too; the configuration file under the configuration directory
+        crate::DEFAULT_CERT_DIR@ == "<data directory>/certs"@ && crate::DEFAULT_ACCOUNTS_DIR@ == "<data directory>/accounts"@, //@C14.default_storage_directories_are_the_documented_ones,C02.default_storage_directories_are_the_documented_ones,C11.default_storage_directories_are_the_documented_ones
         // acmed.toml(5), file_name_format: the key type is part of the default name (an RSA and an ECDSA certificate of one name do not share files)
         crate::DEFAULT_CERT_FORMAT@ == "{{ name }}_{{ key_type }}.{{ file_type }}.{{ ext }}"@, //@C14.default_file_name_format_is_the_documented_one,C02.default_file_name_format_is_the_documented_one,C03.default_file_name_format_is_the_documented_one
         crate::DEFAULT_CERT_RENEW_DELAY == 30 * 24 * 60 * 60 && crate::DEFAULT_CERT_RANDOM_EARLY_RENEW == 0, //@C06.default_renew_delay_is_30_days_no_early_renewal,C14.default_renew_delay_is_30_days_no_early_renewal
@@ -631,6 +634,10 @@ pub open spec fn merged_roots(a: Option<GlobalOptions>, b: Option<GlobalOptions>
 }
 pub open spec fn merged_env(a: Option<GlobalOptions>, b: Option<GlobalOptions>, m: Option<GlobalOptions>) -> bool {
     match (a, b) { (Some(x), Some(y)) => m matches Some(z) && z.env == (if y.env@.len() > 0 { y.env } else { x.env }), _ => true }
+}
+pub open spec fn merged_directories(a: Option<GlobalOptions>, b: Option<GlobalOptions>, m: Option<GlobalOptions>) -> bool {
+    match (a, b) { (Some(x), Some(y)) => m matches Some(z) && z.accounts_directory == later(x.accounts_directory, y.accounts_directory)
+        && z.certificates_directory == later(x.certificates_directory, y.certificates_directory), _ => true }
 }
 pub open spec fn merged_renewal(a: Option<GlobalOptions>, b: Option<GlobalOptions>, m: Option<GlobalOptions>) -> bool {
     match (a, b) { (Some(x), Some(y)) => m matches Some(z) && z.random_early_renew == later(x.random_early_renew, y.random_early_renew)
